@@ -88,6 +88,7 @@ type presentation struct {
 	enterSeq             int64
 	newTopTid, newTopSid bool
 	overlap              bool // another presentation to the same down track was in flight meanwhile
+	overlapOther         bool // ... and it was of a different source packet (two overlapping presentations of the SAME packet leave no doubt about the bookkeeping: exactly one of them can count)
 	newestAtEnter        bool
 }
 
@@ -116,6 +117,11 @@ type recvState struct {
 	nWith       []int64 // sorted withheld exts
 	firstOut    map[int64]uint16
 	outExt      map[uint16]int64
+	prevExt     int64 // the previous packet presented
+	havePrev    bool
+	prevOverlap bool
+	maxSidDone  int
+	maxTidDone  int
 	sent        map[uint16]*fwdRec // first bytes forwarded under an outgoing number
 	// C02
 	frameFwd  map[int]bool // frame had a forwarded packet
@@ -362,6 +368,10 @@ func (w *mediaWorld) installProbes() {
 			for _, o := range rs.inflight {
 				o.overlap = true
 				pr.overlap = true
+				if o.src == nil || pr.src == nil || o.src.Ext != pr.src.Ext {
+					o.overlapOther = true
+					pr.overlapOther = true
+				}
 			}
 			if pr.src != nil {
 				pr.newestAtEnter = !rs.haveHiEnter || pr.src.Ext > rs.hiEnter
@@ -501,6 +511,13 @@ func (w *mediaWorld) judge(rs *recvState, pr *presentation, after rtpconn.VerifL
 	}
 	ext := src.Ext
 	inOrder := !rs.haveHi || ext == rs.hi+1
+	if w.p.Stream.JumpAt > 0 && rs.havePrev && (rs.prevExt != ext-1 || rs.prevOverlap || pr.overlap) {
+		// In runs with a sequence-number jump a late packet from the other
+		// side of the jump legitimately re-synchronises the map: only a
+		// packet presented directly after its predecessor is "in order".
+		inOrder = false
+	}
+	defer func() { rs.prevExt, rs.havePrev, rs.prevOverlap = ext, true, pr.overlap }() // retransmissions included: they go through the same map
 	first := !rs.haveHi
 	newest := !rs.haveHi || ext > rs.hi
 	if !pr.fromNACK && !inOrder {
@@ -530,8 +547,26 @@ func (w *mediaWorld) judge(rs *recvState, pr *presentation, after rtpconn.VerifL
 		}
 	}
 
+	// highest layers among the packets whose presentation has completed
+	defer func() {
+		if int(src.Sid) > rs.maxSidDone {
+			rs.maxSidDone = int(src.Sid)
+		}
+		if int(src.Tid) > rs.maxTidDone {
+			rs.maxTidDone = int(src.Tid)
+		}
+	}()
+
 	// ---------------- C04: layer state machine
 	if w.check["C04"] && !pr.overlap {
+		// The word's record of the highest layers only ever grows; if it is
+		// below what completed presentations have shown, a store computed
+		// from a stale load has overwritten it (possibly while presentations
+		// overlapped, where the two checks below cannot attribute it).
+		if int(pr.before.MaxSid) < rs.maxSidDone || int(pr.before.MaxTid) < rs.maxTidDone {
+			c.Violation("C04.layer-changed-outside-forwarding", "receiver %d: the layer word records sid=%d tid=%d as the highest layers although packets of sid=%d / tid=%d had been presented completely before: it went back between two packets (stale store of the layer word?)", rs.idx, pr.before.MaxSid, pr.before.MaxTid, rs.maxSidDone, rs.maxTidDone)
+			return
+		}
 		if rs.haveLast && (pr.before.MaxSid < rs.lastLayer.MaxSid || pr.before.MaxTid < rs.lastLayer.MaxTid) && len(rs.inflight) == 0 {
 			c.Violation("C04.layer-changed-outside-forwarding", "receiver %d: highest layers recorded in the layer word went from sid=%d tid=%d back to sid=%d tid=%d between two packets (stale store of the layer word?)", rs.idx, rs.lastLayer.MaxSid, rs.lastLayer.MaxTid, pr.before.MaxSid, pr.before.MaxTid)
 			return
@@ -568,7 +603,7 @@ func (w *mediaWorld) judge(rs *recvState, pr *presentation, after rtpconn.VerifL
 			okS = sidOK(src.Sid)
 		}
 		if !okS {
-			c.Violation("C04.spatial-switch", "receiver %d: spatial layer %d -> %d at source seqno %d which is not the first packet of a keyframe (start=%v keyframe=%v sid=%d, new top layer=%v)", rs.idx, pr.before.Sid, after.Sid, src.Seq, src.Start, src.Keyframe, src.Sid, newTopSid)
+			c.Violation("C04.spatial-switch", "receiver %d: spatial layer %d -> %d at source seqno %d which is not the first packet of a keyframe (start=%v keyframe=%v sid=%d, new top layer=%v; layer word before %+v, after %+v); recent presentations: %v", rs.idx, pr.before.Sid, after.Sid, src.Seq, src.Start, src.Keyframe, src.Sid, newTopSid, pr.before, after, rs.hist)
 			return
 		}
 		wanted := pr.before.WantedTid
@@ -594,7 +629,7 @@ func (w *mediaWorld) judge(rs *recvState, pr *presentation, after rtpconn.VerifL
 			return
 		}
 		if forwarded && inOrder && !first && !pr.fromNACK && (src.Tid > after.Tid || src.Sid > after.Sid) {
-			c.Violation("C04.above-layer-forwarded", "receiver %d: in-order source seqno %d (tid=%d sid=%d) forwarded although the current layer is tid=%d sid=%d (stream started at seqno %d)", rs.idx, src.Seq, src.Tid, src.Sid, after.Tid, after.Sid, w.p.Stream.StartSeq)
+			c.Violation("C04.above-layer-forwarded", "receiver %d: in-order source seqno %d (tid=%d sid=%d) forwarded although the current layer is tid=%d sid=%d (stream started at seqno %d); recent presentations: %v", rs.idx, src.Seq, src.Tid, src.Sid, after.Tid, after.Sid, w.p.Stream.StartSeq, rs.hist)
 			return
 		}
 		if rs.limitSince > 0 && pr.enterSeq > rs.limitSince && !pr.fromNACK {
@@ -626,7 +661,7 @@ func (w *mediaWorld) judge(rs *recvState, pr *presentation, after rtpconn.VerifL
 		if w.check["C01"] && !rs.tainted {
 			// an overlapping presentation may already have been counted by
 			// the map but not yet by this model (or the reverse)
-			if out != want && !pr.overlap {
+			if out != want && !pr.overlapOther {
 				c.Violation("C01.wrong-seqno", "receiver %d: source seqno %d forwarded as %d, expected %d (= source - %d withheld before it); recent presentations: %v", rs.idx, src.Seq, out, want, w.withheldBelow(rs, ext), rs.hist)
 				return
 			}
@@ -673,7 +708,7 @@ func (w *mediaWorld) judge(rs *recvState, pr *presentation, after rtpconn.VerifL
 		// A packet newer than everything presented so far can always be
 		// mapped, so not forwarding it was deliberate: withheld.  An older
 		// one that is not forwarded was unmappable (no effect).
-		if pr.overlap && !pr.fromNACK && !(newest && pr.newestAtEnter) {
+		if pr.overlapOther && !pr.fromNACK && !(newest && pr.newestAtEnter) {
 			rs.tainted = true // order of the two map operations is unknown
 			c.Count("presentations.ambiguous", 1)
 		}
